@@ -27,3 +27,150 @@ fn c14_client_error_conversion() {
     kani::assert(if k == 0 { c.detail.len() == 4 } else { c.detail.is_empty() }, "C14.client.detail_is_the_syscall_name_or_empty");
     kani::cover!(k == 0, "C14.cover.client_syscall");
 }
+
+// =============================================================================================
+// The Rust client is a thin layer over ShmReader::{new, snapshot} and ClockErrorBound::now
+// (C17: "the C and the Rust client return the same interval and status ... the same error kind";
+// C05/C14: the client wrappers).  The three callees are replaced by recorders / arbitrary results;
+// what is proved is the wrapper: which callee is called when, and that results and errors are passed
+// through unchanged.  (The same obligations are proved for the C library in clock-bound-ffi.)
+// =============================================================================================
+use clock_bound_shm::{ClockErrorBound, ShmReader};
+
+static mut AREA: [u64; 9] = [0; 9];
+static mut NEW_CALLS: u32 = 0;
+static mut SNAPSHOT_CALLS: u32 = 0;
+static mut NOW_CALLS: u32 = 0;
+static mut NEW_FAILS_WITH: u8 = 0;       // 0 = Ok, 1..=4 error kinds
+static mut SNAPSHOT_FAILS_WITH: u8 = 0;
+static mut NOW_FAILS_WITH: u8 = 0;
+static mut SNAPSHOT_RECORD: Option<ClockErrorBound> = None;
+static mut NOW_SEEN_BOUND: i64 = -1;
+static mut NOW_RESULT: (i64, i64, i64, i64, u8) = (0, 0, 0, 0, 0);
+
+fn err_of(k: u8) -> ShmError {
+    match k {
+        1 => ShmError::SyscallError(Errno(13), std::ffi::CStr::from_bytes_with_nul(b"open\0").unwrap()),
+        2 => ShmError::SegmentNotInitialized,
+        3 => ShmError::SegmentMalformed,
+        _ => ShmError::CausalityBreach,
+    }
+}
+
+fn kind_matches(e: &ClockBoundError, k: u8) -> bool {
+    match k {
+        1 => e.kind == ClockBoundErrorKind::Syscall && e.errno == Errno(13),
+        2 => e.kind == ClockBoundErrorKind::SegmentNotInitialized,
+        3 => e.kind == ClockBoundErrorKind::SegmentMalformed,
+        _ => e.kind == ClockBoundErrorKind::CausalityBreach,
+    }
+}
+
+fn stub_reader_new(_path: &std::ffi::CStr) -> Result<ShmReader, ShmError> {
+    unsafe {
+        NEW_CALLS += 1;
+        if NEW_FAILS_WITH != 0 {
+            return Err(err_of(NEW_FAILS_WITH));
+        }
+        Ok(clock_bound_shm::verif_pub::reader_over(std::ptr::addr_of_mut!(AREA).cast()))
+    }
+}
+
+fn stub_snapshot(_r: &mut ShmReader) -> Result<&ClockErrorBound, ShmError> {
+    unsafe {
+        SNAPSHOT_CALLS += 1;
+        if SNAPSHOT_FAILS_WITH != 0 {
+            return Err(err_of(SNAPSHOT_FAILS_WITH));
+        }
+        let r: &'static Option<ClockErrorBound> = &*std::ptr::addr_of!(SNAPSHOT_RECORD);
+        Ok(r.as_ref().unwrap())
+    }
+}
+
+fn stub_ceb_now(c: &ClockErrorBound) -> Result<(libc_timespec, libc_timespec, ClockStatus), ShmError> {
+    unsafe {
+        NOW_CALLS += 1;
+        NOW_SEEN_BOUND = clock_bound_shm::verif_pub::fields(c).4;
+        if NOW_FAILS_WITH != 0 {
+            return Err(err_of(NOW_FAILS_WITH));
+        }
+        let st = match NOW_RESULT.4 { 1 => ClockStatus::Synchronized, 2 => ClockStatus::FreeRunning, _ => ClockStatus::Unknown };
+        Ok((libc_timespec { tv_sec: NOW_RESULT.0, tv_nsec: NOW_RESULT.1 }, libc_timespec { tv_sec: NOW_RESULT.2, tv_nsec: NOW_RESULT.3 }, st))
+    }
+}
+use nix::libc::timespec as libc_timespec;
+
+#[kani::proof]
+#[kani::unwind(8)]
+#[kani::stub(clock_bound_shm::ShmReader::new, stub_reader_new)]
+#[kani::stub(clock_bound_shm::ShmReader::snapshot, stub_snapshot)]
+#[kani::stub(clock_bound_shm::ClockErrorBound::now, stub_ceb_now)]
+fn c17_client_open_is_thin() {
+    let fail: u8 = kani::any();
+    kani::assume(fail <= 4);
+    unsafe {
+        NEW_FAILS_WITH = fail;
+    }
+    let r = ClockBoundClient::new_with_path("/p");
+    unsafe {
+        kani::assert(NEW_CALLS == 1, "C17.client.open_opens_the_segment_once");
+        kani::assert(SNAPSHOT_CALLS == 0 && NOW_CALLS == 0, "C17.client.open_reads_nothing_from_the_segment");
+    }
+    match r {
+        Ok(c) => {
+            kani::assert(fail == 0, "C17.client.open_ok_iff_reader_ok");
+            let cache = clock_bound_shm::verif_pub::reader_cache(&c.reader);
+            kani::assert(cache.0 == 0 && cache.1 == (0, 0, 0, 0, 0, 0, 0, 0), "C17.client.open_starts_with_the_empty_cache");
+            std::mem::forget(c);
+        }
+        Err(e) => {
+            kani::assert(fail != 0 && kind_matches(&e, fail), "C17.client.open_error_kind_and_errno_passed_through");
+        }
+    }
+    kani::cover!(fail == 0, "C17.cover.client_open_ok");
+    kani::cover!(fail == 1, "C17.cover.client_open_syscall");
+}
+
+#[kani::proof]
+#[kani::unwind(8)]
+#[kani::stub(clock_bound_shm::ShmReader::snapshot, stub_snapshot)]
+#[kani::stub(clock_bound_shm::ClockErrorBound::now, stub_ceb_now)]
+fn c17_client_now_is_thin() {
+    let (sf, nf): (u8, u8) = (kani::any(), kani::any());
+    kani::assume(sf <= 4 && nf <= 4);
+    let bound: i64 = kani::any();
+    let res: (i64, i64, i64, i64, u8) = (kani::any(), kani::any(), kani::any(), kani::any(), kani::any());
+    kani::assume(res.4 < 3);
+    unsafe {
+        SNAPSHOT_FAILS_WITH = sf;
+        NOW_FAILS_WITH = nf;
+        SNAPSHOT_RECORD = Some(clock_bound_shm::verif_pub::record((1, 2, 3, 4, bound, 5, 6, 1)));
+        NOW_RESULT = res;
+    }
+    let reader = clock_bound_shm::verif_pub::reader_over(unsafe { std::ptr::addr_of_mut!(AREA).cast() });
+    let mut c = ClockBoundClient { reader };
+    let r = c.now();
+    unsafe {
+        kani::assert(SNAPSHOT_CALLS == 1, "C17.client.now_takes_exactly_one_snapshot");
+        if sf == 0 {
+            kani::assert(NOW_CALLS == 1 && NOW_SEEN_BOUND == bound, "C17.client.now_evaluates_the_snapshot_it_took");
+        } else {
+            kani::assert(NOW_CALLS == 0, "C17.client.now_no_interval_without_a_snapshot");
+        }
+    }
+    match r {
+        Ok(out) => {
+            kani::assert(sf == 0 && nf == 0, "C17.client.now_ok_iff_both_steps_ok");
+            kani::assert(out.earliest.tv_sec() == res.0 && out.earliest.tv_nsec() == res.1
+                         && out.latest.tv_sec() == res.2 && out.latest.tv_nsec() == res.3, "C17.client.now_interval_passed_through");
+            kani::assert(out.clock_status as i32 == res.4 as i32, "C17.client.now_status_passed_through");
+        }
+        Err(e) => {
+            let k = if sf != 0 { sf } else { nf };
+            kani::assert(k != 0 && kind_matches(&e, k), "C17.client.now_error_kind_and_errno_passed_through");
+        }
+    }
+    std::mem::forget(c);
+    kani::cover!(sf == 0 && nf == 0, "C17.cover.client_now_ok");
+    kani::cover!(sf == 0 && nf == 4, "C17.cover.client_now_causality");
+}
